@@ -524,7 +524,7 @@ def run(rep, tier, seed, workers):
         'split after every transaction, and fsrecover on the undamaged file, '
         'each compared with the source by the full battery; 3 blob '
         'histories copied file by file; (c): for the fixed source histories '
-        '(and every depth-3 history in the thorough tier) every byte offset '
+        '(and every depth-2 history in the thorough tier) every byte offset '
         'x {cut, zero 1/8/64 bytes, 0xFF x 8}: recover under a read budget of '
         '50 + 20 x size reads, output compared with the input transaction by '
         'transaction; evaluations = copies + recoveries; non-trivial = '
@@ -546,7 +546,7 @@ def run(rep, tier, seed, workers):
     spec = make_spec({})
     hists = list(FIXED)
     if tier != 'quick':
-        # every history of depth 2 and 3 as damage source too
+        # every history of depth 2 as damage source too
         def rec(h, d):
             w = world.build('F', h, spec)
             try:
@@ -557,7 +557,7 @@ def run(rep, tier, seed, workers):
                 w.close()
             for op in ops:
                 rec(h + [op], d)
-        rec([], 3)
+        rec([], 2)
     for hi, h in enumerate(hists):
         w = world.build('F', [tuple(o) for o in h], spec)
         size = w.storage.getSize()
